@@ -61,6 +61,21 @@ CHECKS = {
          "The recursion templates hold a value across the recursive call at each of 37 expression positions (both sides of operators, argument slots, tuple/list/blob elements, if condition and branch values, case scrutinee / binding / arm value, and/or operands, plain / compound / field assignment, locals, closures created per activation, loops, higher-order re-entry, early return) at depths 1-3 with and without tracing, plus mutual recursion through a mutable global function variable and a method re-entering through self; every action sequence (<= 3 / 4) of the closure family (two closures sharing a variable, counters from a factory, closures created per loop iteration, capture of parameters and of a global) and of the blob-method, enum-binding and global families; every expression of the expression families in the call/closure/return contexts. Every level, held value and closure instance has a different value and all intermediate results are printed, so interference between activations changes the trace.",
          "Trusted as for C01. The number of emitted chunks that assign undeclared V-names is reported as a diagnostic, not a verdict (a legitimate scheme may keep Sylt globals in Lua globals).",
          "DESIGN.md §4 C10"),
+ "C08": ("exploration",
+         "exhaustive enumeration of all annotation subsets of every base program; acceptance and byte identity of the emitted Lua against the un-annotated variant",
+         "For every type (int, float, bool, str, tuple, blob, enum, list) and every expression of that type with at most 1 (quick) / 2 (thorough) operator nodes, a base program carries annotation sites on a global constant, a global variable, two parameters, a return type, a function local and two locals of start (8 sites; thorough adds a closure's parameter and return type for 10). All 2^8 / 2^10 subsets are compiled by the real compiler: each must be accepted and its Lua must equal the un-annotated variant's byte for byte.",
+         "Annotations are correct by construction (the generator builds each term at a known type). Function-typed parameters are not sites (excluded by the property). Bases the compiler rejects without annotations are outside the property and counted.",
+         "DESIGN.md §4 C08"),
+ "C09": ("exploration",
+         "exhaustive enumeration of all binder-to-name maps of template programs, decided by an independent lexical scope model; byte identity for consistent renamings, rejection for scope violations, reference-interpreter comparison for captures; plus a use of every binder planted at every statement position",
+         "Three templates cover globals, global functions, parameters, function / block / branch / elif / else / loop locals, closure parameters and locals and case bindings. For every subset of 2..4 (quick) / 2..5 (thorough) binders and every map of the subset into its own names (identity, permutations, maximal shadowing, collisions) the scope model computes the binding graph of the renamed program: same graph => the Lua bytes must equal the base's; an unbound use or two globals with one name => must be rejected; a different closed graph => the program is compiled, run under MiniLua and compared with RefSylt, which binds lexically. Separately a read of each binder is planted at every statement position of each template and must be rejected exactly where the model finds it unbound; three programs check that a parameter / local / case binding shadows an import alias.",
+         "Trusted: scope.rs (innermost enclosing declaration; definition visible after its initialiser, function definitions inside it; file globals visible everywhere). Maps giving two parameters of one function the same name are skipped. Known finding F-09 (alias.field ignores a shadowing local) is listed in known_findings.json.",
+         "DESIGN.md §4 C09"),
+ "C14": ("exploration",
+         "exhaustive enumeration of all surface-choice vectors (call style per site, return form, loop form, layout noise, redundant parentheses, line breaks in brackets, CRLF) of every base program; identity of the emitted Lua",
+         "Bases: the statement families with sequences of length <= 2 (quick) / 3 (thorough), the recursion templates, expressions of size <= 1 in call-heavy contexts and a feature-dense sample with <!> and loop do. Layout group: 4 noise patterns (blank lines, comment lines, trailing comments, tab indentation) x redundant parentheses x CRLF x line breaks after ( [ , inside brackets; compared byte for byte after masking the line number of <!>. Sugar group: every call-style vector over the first 3 / 5 call sites (f(a, b), f' a, b, a -> f(b), a -> f' b) x trailing expression vs ret x loop do vs loop true do; compared after renumbering V<n>/L<n> names by first occurrence.",
+         "The surface printer avoids the documented parser traps (prime calls are wrapped, unary arguments parenthesised, signatures followed by a line break). Sugar variants are compared modulo temporary numbering because the statement does not fix numbering.",
+         "DESIGN.md §4 C14"),
 }
 
 checks = []
